@@ -42,6 +42,20 @@ Theorem C18_every_call : forall s0 ops k api p,
 Proof. exact every_call. Qed.
 Print Assumptions C18_every_call.
 
+(* ... also when another process changes the tree while the started command is
+   running inside the call: still one check and at most one start per call, both
+   in the state the call found (no second, unchecked start). *)
+Theorem C18_every_call_during : forall s0 ops k api p d,
+  nth_error ops k = Some (OpExecDuring api p d) ->
+  let s := state_at s0 ops k in
+  nth_error (run s0 ops) k = Some (EvCall (exec_call s p))
+  /\ (forall f u g m, exec_call s p = Ran f u g m ->
+        eval_symlinks s p = RFile f u g m /\ root_controlled u g m)
+  /\ (~ allowed_path s p -> exists e, exec_call s p = Refused e)
+  /\ exec_call s p <> Panicked.
+Proof. exact every_call_during. Qed.
+Print Assumptions C18_every_call_during.
+
 (* The configuration file: with a command sensor or fan declared, validation
    accepts only if the file (after symlink resolution) passes the same test,
    and a file that does not pass is rejected with the permission error. *)
